@@ -47,6 +47,7 @@ MUT_QUERIES = [
     "mk-matrix-2/deepmut", "mk-matrix-2/ident", "mk-matrix-2/deepmut/deepmut-w", "mk-lod-2/deepmut/ident", "mk-lod-2/ident",
     "mk-nested/deepmut", "mk-matrix-3/push-a/deepmut",
     "mk-tlist-2/deepmut", "mk-tlist-2/ident", "mk-tlist-2/deepmut/deepmut-w", "mk-tlist-1/deepmut/ident", "mk-tlist-2/ident/deepmut",
+    "-R/res.txt", "res.txt/-/ident", "-R/dir/n.json", "dir/n.json/-/cat-x", "-R/res.txt/-/cat-a/cat-b",
     "ctxmut-mlist/getvar-mlist", "one/ctxmut-mlist/getvar-mlist", "ctxmut-mdict/getvar-mdict", "one/ctxmut-mlist/ctxmut-mlist/ident",
 ]
 
@@ -100,6 +101,13 @@ def mutate_in_place(rnd, st):
         md["log"].append({"kind": "info", "message": "CALLER"})
 
 
+def _neq(a, b):
+    try:
+        return not (a == b)
+    except Exception:
+        return repr(a) != repr(b)
+
+
 def snapshot_state(st):
     return copy.deepcopy(st.data), copy.deepcopy(st.metadata)
 
@@ -147,6 +155,21 @@ def run_history(env, kind, events, scratch, viol, stats, rnd):
             elif not R.dict_equal_unordered(pst.metadata.get("vars", {}), pmeta.get("vars", {})):
                 viol("previously_returned_vars_changed", "%s: vars of the state returned at step %d changed after step %d: %r -> %r" % (
                     kind, pstep, step, pmeta.get("vars"), pst.metadata.get("vars")), step)
+            else:
+                # the rest of its metadata (attributes, log, commands, ...) belongs to the caller just as much
+                changed = [f for f in sorted(set(pmeta) | set(pst.metadata)) if f != "vars" and _neq(pst.metadata.get(f), pmeta.get(f))]
+                if changed:
+                    viol("previously_returned_metadata_changed", "%s: metadata fields %r of the state returned at step %d (%r) changed after step %d evaluate(%r): %r -> %r" % (
+                        kind, changed[:4], pstep, events[pstep]["q"], step, q, pmeta.get(changed[0]), pst.metadata.get(changed[0])), step)
+        # (b') a newly constructed state is pristine (what every evaluation starts from)
+        from liquer.state import State
+
+        fresh_md = State().metadata
+        dirty = [f for f in ("attributes", "log", "commands", "extended_commands", "sources", "direct_subqueries", "argument_queries")
+                 if fresh_md.get(f) not in (None, [], {}, ())]
+        if dirty or "CALLER" in repr(fresh_md):
+            viol("new_state_not_pristine", "%s: after step %d evaluate(%r) + caller mutation a new State() carries %r" % (
+                kind, step, q, {f: fresh_md.get(f) for f in dirty} or "CALLER"), step)
         if st is not None:
             mutate_in_place(rnd, st)
             stats["caller_mutations"] = stats.get("caller_mutations", 0) + 1
